@@ -2,6 +2,7 @@ package h
 
 import (
 	"fmt"
+	"runtime"
 	"sort"
 	"sync"
 
@@ -87,8 +88,14 @@ func (l *ilock) Lock() {
 	if m.S.Poisoned() {
 		return
 	}
-	tid := m.S.Current()
 	l.orig.Lock() // free by the probe, and no other thread has run since
+	l.took(kind)
+}
+
+// took records that the calling thread now holds the lock.
+func (l *ilock) took(kind string) {
+	m, st := l.m, l.st
+	tid := m.S.Who()
 	m.holders[l] = append(m.holders[l], tid)
 	if m.held[tid] == nil {
 		m.held[tid] = map[int]int{}
@@ -116,7 +123,7 @@ func (l *ilock) Unlock() {
 	}
 	// attribute the release to the running thread if it is a holder, else to the oldest holder
 	tid, at := hs[0], 0
-	cur := m.S.Current()
+	cur := m.S.Who()
 	for i, h := range hs {
 		if h == cur {
 			tid, at = h, i
@@ -134,6 +141,35 @@ func (l *ilock) Unlock() {
 	m.Log = append(m.Log, fmt.Sprintf("T%d -%s%d", tid, kind, st.idx))
 }
 
+// ilockTry is the instrumented form of a locker that also offers TryLock (sync.Mutex,
+// sync.RWMutex): code that type-asserts for it must find it exactly where rend's own locker has it.
+type ilockTry struct{ *ilock }
+
+func (l ilockTry) TryLock() bool {
+	m, st := l.m, l.st
+	kind := "r"
+	if l.write {
+		kind = "w"
+	}
+	m.S.Point(fmt.Sprintf("trylock-%s[%d]", kind, st.idx), nil)
+	if m.S.Poisoned() {
+		return false
+	}
+	t, _ := l.orig.(tryLocker)
+	if !t.TryLock() {
+		return false
+	}
+	l.took(kind)
+	return true
+}
+
+func instrument(l *ilock) sync.Locker {
+	if _, ok := l.orig.(tryLocker); ok {
+		return ilockTry{l}
+	}
+	return l
+}
+
 var (
 	origMu    sync.Mutex
 	origLocks = map[uint32][2][]sync.Locker{}
@@ -145,7 +181,14 @@ func InstallLockMonitor(s *sched.Sched, slot uint32) *LockMonitor {
 	w, r := orcas.VerifLockSet(slot)
 	origMu.Lock()
 	o, ok := origLocks[slot]
-	if !ok {
+	stale := false
+	switch w[0].(type) {
+	case *ilock, ilockTry:
+		stale = true
+	}
+	if !stale || !ok || len(o[0]) != len(w) {
+		// the live set holds rend's own lockers (always the case for a deployment the real main
+		// program has just built; otherwise unless an earlier execution was torn down half-way)
 		o = [2][]sync.Locker{append([]sync.Locker{}, w...), append([]sync.Locker{}, r...)}
 		origLocks[slot] = o
 	}
@@ -159,8 +202,8 @@ func InstallLockMonitor(s *sched.Sched, slot uint32) *LockMonitor {
 		if e1+e2 != "" && m.Conform == "" {
 			m.Conform = e1 + e2
 		}
-		w[i] = &ilock{m: m, st: st, write: true, orig: o[0][i], probe: pw}
-		r[i] = &ilock{m: m, st: st, write: false, orig: o[1][i], probe: pr}
+		w[i] = instrument(&ilock{m: m, st: st, write: true, orig: o[0][i], probe: pw})
+		r[i] = instrument(&ilock{m: m, st: st, write: false, orig: o[1][i], probe: pr})
 	}
 	return m
 }
@@ -194,4 +237,78 @@ func (m *LockMonitor) HeldNow() []string {
 	}
 	sort.Strings(out)
 	return out
+}
+
+// Sequential harnesses (one command at a time) run on rend's own lockers; a command that asks for
+// a lock that is not free can only be waiting for a lock its own connection holds (or that an
+// earlier command leaked), which the real mutex would turn into a silent hang. seqGuard turns it
+// into a finding and ends the goroutine.
+type seqGuard struct {
+	orig  sync.Locker
+	probe func() bool
+	idx   int
+	write bool
+	g     *SeqLockGuard
+	held  int
+}
+
+// SeqLockGuard guards one lock set for one sequential execution.
+type SeqLockGuard struct {
+	Trouble string
+	guards  []*seqGuard
+	liveW   []sync.Locker
+	liveR   []sync.Locker
+	origW   []sync.Locker
+	origR   []sync.Locker
+}
+
+func (l *seqGuard) Lock() {
+	if !l.probe() {
+		kind := "read"
+		if l.write {
+			kind = "write"
+		}
+		if l.g.Trouble == "" {
+			l.g.Trouble = fmt.Sprintf("a command asked for the %s lock of stripe %d while it was not free, with no other command in flight: it waits for a lock its own connection holds or that an earlier command never released", kind, l.idx)
+		}
+		runtime.Goexit()
+	}
+	l.orig.Lock()
+	l.held++
+}
+
+func (l *seqGuard) Unlock() {
+	l.held--
+	l.orig.Unlock()
+}
+
+// InstallSeqLockGuard wraps every locker of the lock set; call Uninstall afterwards.
+func InstallSeqLockGuard(slot uint32) *SeqLockGuard {
+	w, r := orcas.VerifLockSet(slot)
+	g := &SeqLockGuard{liveW: w, liveR: r}
+	if _, stale := w[0].(*seqGuard); stale {
+		return g // an earlier execution of this process is still installed (never the case in practice)
+	}
+	g.origW, g.origR = append([]sync.Locker{}, w...), append([]sync.Locker{}, r...)
+	for i := range w {
+		pw, _ := probeFor(g.origW[i], g.origW[i])
+		pr, _ := probeFor(g.origR[i], g.origW[i])
+		gw := &seqGuard{orig: g.origW[i], probe: pw, idx: i, write: true, g: g}
+		gr := &seqGuard{orig: g.origR[i], probe: pr, idx: i, write: false, g: g}
+		g.guards = append(g.guards, gw, gr)
+		w[i], r[i] = gw, gr
+	}
+	return g
+}
+
+// Uninstall puts rend's lockers back and releases what the execution left locked.
+func (g *SeqLockGuard) Uninstall() {
+	for _, l := range g.guards {
+		for ; l.held > 0; l.held-- {
+			l.orig.Unlock()
+		}
+	}
+	for i := range g.origW {
+		g.liveW[i], g.liveR[i] = g.origW[i], g.origR[i]
+	}
 }
